@@ -157,13 +157,14 @@ func flowOpenRace(run *Run, ss *shardSet) {
 		}
 		sw, _ := ms.VerifSendWindow()
 		run.Count(fmt.Sprintf("fopen|%v", c), true, "flow-open-race:"+c.kind)
+		failed := false
 		if int64(sw) != want {
+			failed = true
 			sig := "h2flow:stream-window-misses-settings-delta"
 			if c.kind == "winupd" {
 				sig = "h2flow:window-update-dropped-for-open-stream"
 			}
 			run.Fail(sig, fmt.Sprintf("stream opened while the peer's %s (%d) was processed and acknowledged: send window %d, must be %d (initial window in force %d)", c.kind, c.v, sw, want, c.init0), rep)
-			continue
 		}
 		// now the body
 		sent := make(chan struct{})
@@ -183,11 +184,11 @@ func flowOpenRace(run *Run, ss *shardSet) {
 		got := conn.dataBytes()
 		switch {
 		case got > expect:
+			failed = true
 			run.Fail("h2flow:sent-beyond-acknowledged-window", fmt.Sprintf("%d DATA bytes sent on a stream whose acknowledged window allows %d", got, expect), rep)
-			continue
 		case got < expect:
+			failed = true
 			run.Fail("h2flow:body-not-sent-although-window-open", fmt.Sprintf("%d of %d permitted DATA bytes sent within 2 s", got, expect), rep)
-			continue
 		}
 		var fr string
 		if c.kind == "settings" {
@@ -195,9 +196,11 @@ func flowOpenRace(run *Run, ss *shardSet) {
 		} else {
 			fr = fmt.Sprintf("PWinUpd 1 %s", CoqZ(int64(c.v)))
 		}
-		ss.add("fopen", flowOpenHeader, "fopen_case", "fopen_mismatches", 200,
-			fmt.Sprintf("(%s, %s, %s, (%s, %s))", CoqZ(int64(c.init0)), fr, CoqZ(int64(c.body)), CoqZ(int64(sw)), CoqZ(int64(got))), rep)
-		if expect < c.body { // release the parked sender so that the goroutine ends
+		if !failed {
+			ss.add("fopen", flowOpenHeader, "fopen_case", "fopen_mismatches", 200,
+				fmt.Sprintf("(%s, %s, %s, (%s, %s))", CoqZ(int64(c.init0)), fr, CoqZ(int64(c.body)), CoqZ(int64(sw)), CoqZ(int64(got))), rep)
+		}
+		if got < c.body { // release the parked sender so that the goroutine ends
 			feed(func(fr *xh2.Framer) { fr.WriteWindowUpdate(1, uint32(c.body)) })
 			select {
 			case <-sent:
